@@ -36,8 +36,8 @@ CLAIMED["C14"] = ("typestate abstract interpretation of the handler stack (push/
  "Not decided: dynamic nesting semantics beyond these shapes.",
  "DESIGN.md §3 C14")
 CLAIMED["C06"] = ("slice non-interference for debug and statistics (guard-position + who-may-read/write rules); typestate abstract interpretation of the memo-table discipline",
- "Complete static decision that Debug and Statistics cannot influence results; sound decision of the memo discipline (key before, end after, same node, same guard, hit restores stored end) which gives at-most-once evaluation per (node, offset) outside left-recursive rules.",
- "Not decided: that replaying a memoised result equals re-evaluating (purity of code blocks is the property's hypothesis); expected-set bookkeeping on memo hits.",
+ "Complete static decision that Debug and Statistics cannot influence results; sound decision of the memo discipline (key before, end after, same node, same guard, hit restores stored end) which gives at-most-once evaluation per (node, offset) outside left-recursive rules; which expression kinds may be answered from the memo table at all (C06-e: not those that bind or read the caller's label scope - violated on the pinned tree, finding F14, known); errList.add keeps every error (C06-f).",
+ "Not decided: that replaying a memoised result equals re-evaluating for the remaining kinds (purity of code blocks is the property's hypothesis); expected-set bookkeeping on memo hits.",
  "DESIGN.md §3 C06")
 CLAIMED["C08"] = ("typestate abstract interpretation of the seed-growing loop and of rule dispatch in the 8 LeftRecursion variants",
  "Narrow claim: nothing of the final non-extending attempt is retained (position, state store, error list), expression memo consistently off in left-recursive rules, dispatch of leader / non-leader rules, strict-growth loop condition. These are necessary conditions of the left-associative-iteration semantics.",
